@@ -129,6 +129,12 @@ def schemata():
         S.append((part, ":- a', not &tel { q(X) : d(X) }.", ":- a', not &tel { q(1) & q(2) }."))
         S.append((part, ":- not a', &tel { > q(X) : d(X) }.\ns :- &tel { (> q(1)) & (> q(2)) }.", ":- not a', &tel { (> q(1)) & (> q(2)) }.\ns :- &tel { (> q(1)) & (> q(2)) }."))
         S.append((part, ":- a'', not &del { ? q(X) .>? a : d(X) }.", ":- a'', not &tel { (q(1) & a) & (q(2) & a) }."))
+    # theory atoms with several elements, conditioned and unconditioned ones in either order, conditions that are not facts (f : c means c -> f)
+    for part in ('always', 'initial', 'dynamic'):
+        S.append((part, ':- not &tel { a : q(1) ; q(2) }.', ':- not &tel { (~ q(1) | a) & q(2) }.'))
+        S.append((part, ':- not &tel { q(2) ; a : q(1) }.', ':- not &tel { q(2) & (~ q(1) | a) }.'))
+        S.append((part, 's :- not &tel { > a : q(1), q(2) ; < q(1) ; a : not q(2) }.', 's :- not &tel { (~ (q(1) & q(2)) | > a) & (< q(1)) & (q(2) | a) }.'))
+        S.append((part, ':- &tel { q(X) : d(X), not a ; a }.', ':- &tel { (a | q(1)) & (a | q(2)) & a }.'))
     # classical negation inside formulas
     for part in ('always', 'initial', 'dynamic'):
         rule(part, '&tel { -p(X) | > r(X) } :- q(X).')
